@@ -28,11 +28,12 @@ LISTS = {"uj_steps": ("uj", ["step", "step3", "step_alt"]), "jobs": ("step", ["j
 
 
 def _ids(objs_list):
-    return sorted(getattr(o, "_value", o).id for o in objs_list)
+    """python identities (not the model's own ids: two distinct objects are two referrers whatever their ids say)"""
+    return sorted(id(getattr(o, "_value", o)) for o in objs_list)
 
 
 def forward_model(objs):
-    """reverse look-ups recomputed from forward links only"""
+    """reverse look-ups recomputed from forward links only; objects are keyed by python identity"""
     real = {n: o for n, o in objs.items() if isinstance(o, ModelingObject)}
     fwd = {}
     for n, o in real.items():
@@ -42,13 +43,13 @@ def forward_model(objs):
                 targets.append(v._value)
             elif isinstance(v, ListLinkedToModelingObj):
                 targets += [getattr(e, "_value", e) for e in v]
-        fwd[o.id] = targets
-    byid = {o.id: o for o in real.values()}
+        fwd[id(o)] = targets
+    byid = {id(o): o for o in real.values()}
     containers = {i: [] for i in byid}
     for src, ts in fwd.items():
         for t in ts:
-            if t.id in containers and src not in [c.id for c in containers[t.id]]:
-                containers[t.id].append(byid[src])
+            if id(t) in containers and src not in [id(c) for c in containers[id(t)]]:
+                containers[id(t)].append(byid[src])
     return byid, fwd, containers
 
 
@@ -58,12 +59,12 @@ def reach_up(containers, oid, cls_name, seen=None):
     while stack:
         i = stack.pop()
         for c in containers.get(i, []):
-            if c.id in seen:
+            if id(c) in seen:
                 continue
-            seen.add(c.id)
+            seen.add(id(c))
             if type(c).__name__ == cls_name:
                 out.append(c)
-            stack.append(c.id)
+            stack.append(id(c))
     return out
 
 
@@ -73,11 +74,11 @@ def check_links(ctx, objs, label):
         if not isinstance(o, ModelingObject):
             continue
         w = f"{label}: {n}"
-        ctx.require(_ids(o.modeling_obj_containers) == _ids(containers[o.id]),
+        ctx.require(_ids(o.modeling_obj_containers) == _ids(containers[id(o)]),
                     f"{w}.modeling_obj_containers = objects that currently reference it",
-                    f"{[c.name for c in o.modeling_obj_containers]} vs {[c.name for c in containers[o.id]]}")
+                    f"{[c.name for c in o.modeling_obj_containers]} vs {[c.name for c in containers[id(o)]]}")
         cn = type(o).__name__
-        exp_systems = reach_up(containers, o.id, "System") if cn != "System" else [o]
+        exp_systems = reach_up(containers, id(o), "System") if cn != "System" else [o]
         try:
             got = o.systems
             ctx.require(_ids(got) == _ids(exp_systems), f"{w}.systems", f"{[s.name for s in got]} vs {[s.name for s in exp_systems]}")
@@ -85,28 +86,28 @@ def check_links(ctx, objs, label):
         except Exception as e:  # noqa
             ctx.require(False, f"{w}.systems can be read", f"{type(e).__name__}: {str(e)[:100]}")
         if cn in ("Job",):
-            ctx.require(_ids(o.usage_patterns) == _ids(reach_up(containers, o.id, "UsagePattern")), f"{w}.usage_patterns",
+            ctx.require(_ids(o.usage_patterns) == _ids(reach_up(containers, id(o), "UsagePattern")), f"{w}.usage_patterns",
                         f"{[x.name for x in o.usage_patterns]}")
-            ctx.require(_ids(o.usage_journey_steps) == _ids([c for c in containers[o.id] if type(c).__name__ == "UsageJourneyStep"]),
+            ctx.require(_ids(o.usage_journey_steps) == _ids([c for c in containers[id(o)] if type(c).__name__ == "UsageJourneyStep"]),
                         f"{w}.usage_journey_steps")
             nets = {}
-            for pat in reach_up(containers, o.id, "UsagePattern"):
-                for t in fwd[pat.id]:
+            for pat in reach_up(containers, id(o), "UsagePattern"):
+                for t in fwd[id(pat)]:
                     if type(t).__name__ == "Network":
-                        nets[t.id] = t
+                        nets[id(t)] = t
             ctx.require(_ids(o.networks) == _ids(nets.values()), f"{w}.networks")
         if cn in ("Server", "GPUServer"):
-            ctx.require(_ids(o.jobs) == _ids([c for c in containers[o.id] if type(c).__name__ == "Job"]), f"{w}.jobs",
+            ctx.require(_ids(o.jobs) == _ids([c for c in containers[id(o)] if type(c).__name__ == "Job"]), f"{w}.jobs",
                         f"{[x.name for x in o.jobs]}")
         if cn == "UsageJourney":
-            ctx.require(_ids(o.usage_patterns) == _ids([c for c in containers[o.id] if type(c).__name__ == "UsagePattern"]),
+            ctx.require(_ids(o.usage_patterns) == _ids([c for c in containers[id(o)] if type(c).__name__ == "UsagePattern"]),
                         f"{w}.usage_patterns")
         if cn in ("UsageJourneyStep",):
-            ctx.require(_ids(o.usage_journeys) == _ids([c for c in containers[o.id] if type(c).__name__ == "UsageJourney"]),
+            ctx.require(_ids(o.usage_journeys) == _ids([c for c in containers[id(o)] if type(c).__name__ == "UsageJourney"]),
                         f"{w}.usage_journeys", f"{[x.name for x in o.usage_journeys]}")
-            ctx.require(_ids(o.usage_patterns) == _ids(reach_up(containers, o.id, "UsagePattern")), f"{w}.usage_patterns")
+            ctx.require(_ids(o.usage_patterns) == _ids(reach_up(containers, id(o), "UsagePattern")), f"{w}.usage_patterns")
         if cn in ("Network", "Country"):
-            ctx.require(_ids(o.usage_patterns) == _ids([c for c in containers[o.id] if type(c).__name__ == "UsagePattern"]),
+            ctx.require(_ids(o.usage_patterns) == _ids([c for c in containers[id(o)] if type(c).__name__ == "UsagePattern"]),
                         f"{w}.usage_patterns")
 
 
@@ -239,9 +240,22 @@ def h_list_ops(ctx, attr, ops):
         check_links(ctx, objs, lab)
 
 
-def h_repoint(ctx, case):
+def _same_names(spec):
+    """distinct objects of one class carrying the same display name (two jobs called alike on one server, ...)"""
+    for coll, pairs in (("jobs", [("job2", "job"), ("job3", "job")]), ("devices", [("dev_alt", "dev")]), ("networks", [("net2", "net")]),
+                        ("steps", [("step2", "step")]), ("servers", [("srv_alt", "srv")]), ("storages", [("st_alt", "st")])):
+        for a, b in pairs:
+            if a in spec.get(coll, {}) and b in spec[coll]:
+                spec[coll][a]["name"] = spec[coll][b].get("name", b)
+    return spec
+
+
+def h_repoint(ctx, case, same_names=False):
     spec = M.T9(2)
+    if same_names:
+        _same_names(spec)
     objs = M.build(spec, M.Env(ctx, {}))
+    check_links(ctx, objs, "after building")
     acts = {
         "job.server": lambda: setattr(objs["job"], "server", objs["srv_alt"]),
         "job.server_back": lambda: (setattr(objs["job"], "server", objs["srv_alt"]), setattr(objs["job"], "server", objs["srv"])),
@@ -309,7 +323,7 @@ def h_delete(ctx, case):
             byid, fwd, containers = forward_model(rest)
             for k, v in rest.items():
                 if isinstance(v, ModelingObject):
-                    ctx.require(o.id not in [c.id for c in v.modeling_obj_containers], f"deleted {n} no longer referenced by {k}")
+                    ctx.require(id(o) not in [id(c) for c in v.modeling_obj_containers], f"deleted {n} no longer referenced by {k}")
             objs = rest
             check_links(ctx, objs, f"after self_delete of {n}")
 
@@ -372,4 +386,6 @@ def plan(tier, seed):
         pairs = pairs[nb:] + pairs[:nb]
     for case in ("storage_of_another_server", "storage_of_another_server_grouped", "sim_job_server", "sim_step_jobs", "sim_up_network_toggled"):
         p.append(("refused_or_undone", dict(case=case)))
+    for case in ("job.server", "job.server_back", "up.network", "up.usage_journey"):
+        p.append(("repoint", dict(case=case, same_names=True)))
     return p
